@@ -1,5 +1,5 @@
 # sourced by every script in /verif/bin
-export VERIF_ROOT=/verif
+
 export REPO=${REPO:-/repo}
 export GO=/root/go/pkg/mod/golang.org/toolchain@v0.0.1-go1.25.0.linux-amd64/bin/go
 export GOROOT=/root/go/pkg/mod/golang.org/toolchain@v0.0.1-go1.25.0.linux-amd64
